@@ -1,11 +1,13 @@
 // C18: OVMB detects truncation, framing corruption and stream failures -- WHOLE-FILE level.
 // The public entry point IO::ovmb_read(std::istream&, MeshT&, ReadOptions, codecs) is run on the bytes of valid files
 // produced by the real writer (gen/c18_files.inc, generated at check time by tools/gen_ovmb.cpp) after one fault:
-//   (1) truncation to length L, (2) substitution of one byte of a must-reject field by a SYMBOLIC other value,
+//   (1) truncation to length L, (2) substitution of one byte of a must-reject field by a boundary value,
 //   (3) a forbidden change of the chunk structure, (4) a stream that stops delivering at offset P.
-// L, P, the substituted offset and the structure change are chosen by a symbolic selector dispatched to literal cases
-// (8 per query, the block of 8 is the shard parameter 1), because the reader's control flow and the mesh containers
-// depend on them; the substituted byte value is a free symbolic byte.
+// L, P, the substituted (offset, value) and the structure change are chosen by a symbolic selector dispatched to literal
+// cases (8 per query, the block of 8 is the shard parameter 1), because the reader's control flow and the mesh containers
+// depend on them.  (Measured: a free symbolic replacement byte makes symex merge the accept/reject paths into symbolic
+// container shapes -- no verdict in 600 s for 8 magic-byte cases of the 64-byte file; the property's own quantifier is
+// "every single-byte substitution ... with every one of a set of boundary values", which is what is enumerated.)
 // The stream is the memory-buffer model of models/stream_model.cpp (vstream.h); natively a real std::istream.
 // shard params: 0 = file (FM_EMPTY/FM_TET/FM_TETP), 1 = block of 8 cases.
 #include "verif.h"
@@ -53,6 +55,7 @@ static __attribute__((noinline)) ReadResult read_buf(uint64_t n, uint64_t fail_a
   return ovmb_read(in.stream(), m, opt, codecs);
 }
 
+enum { N_SLOTS = 5 };   // boundary values per substituted byte: orig^0x01, orig^0x80, 0x00, 0xff, smallest constraint-violating value
 enum Mode { M_TRUNC = 1, M_FAULT, M_SUBST, M_SUBST_COMPRESSION, M_STRUCT };
 static unsigned g_mode;
 
@@ -118,26 +121,30 @@ static __attribute__((noinline)) void do_case(unsigned i) {
     v_assert(r != ReadResult::Ok, "C18 stream fault: a read failure of the underlying stream must not read as Ok");
     v_witness("C18 stream fault case end");
     break; }
-  case M_SUBST: case M_SUBST_COMPRESSION: {   // (2) one byte of a must-reject field replaced by a symbolic other value
-    // n-th byte of the must-reject set (classes of the generator's walk of the published layout)
+  case M_SUBST: case M_SUBST_COMPRESSION: {   // (2) one byte of a must-reject field replaced by a boundary value
+    // case n = (k-th byte of the must-reject set, value slot): classes from the generator's walk of the published layout
+    unsigned k = n / N_SLOTS, slot = n % N_SLOTS;
     unsigned off = 0, cnt = 0; bool found = false;
     for (unsigned o = 0; o < d.len; ++o) {
       bool in = g_mode == M_SUBST ? (d.cls[o] != CLS_FREE && d.cls[o] != CLS_COMPRESSION) : d.cls[o] == CLS_COMPRESSION;
-      if (in) { if (cnt == n) { off = o; found = true; } ++cnt; }
+      if (in) { if (cnt == k) { off = o; found = true; } ++cnt; }
     }
     if (!found) { v_witness("C18 case outside the must-reject set"); return; }
-    load_file(which);
     unsigned cls = d.cls[off];
-    unsigned chunk = 0; for (unsigned k = 0; k < d.nchunks; ++k) if (d.chunk_off[k] <= off) chunk = k;
-    uint8_t orig = g_buf[off], nb = v_nondet_u8();
-    v_assume(nb != orig);
-    if (cls == CLS_TOPO_TYPE) v_assume(nb > 2 || (nb == 2 && which != FM_EMPTY));   // Polyhedral/Tetrahedral stay consistent with a tet; anything is consistent with no cells
-    if (cls == CLS_HANDLE) v_assume(nb >= d.chunk_limit[chunk]);                       // (files use 1-byte handles) handle made >= number of referenced entities
-    if (cls == CLS_HANDLE_OFFSET) {                                                  // offset added to every handle: the largest one leaves the range
-      unsigned byte_idx = (off - (d.chunk_off[chunk] + 16 + 16)) & 7;
-      if (byte_idx == 0) v_assume((unsigned)nb + d.chunk_maxh[chunk] >= d.chunk_limit[chunk]);
-    }
-    g_buf[off] = nb;
+    unsigned chunk = 0; for (unsigned c = 0; c < d.nchunks; ++c) if (d.chunk_off[c] <= off) chunk = c;
+    unsigned orig = d.bytes[off];
+    // smallest value that violates the field's constraint (class specific), 256 = none
+    unsigned lo = 0;   // values >= lo (and != orig) are inconsistent with the rest of the file
+    if (cls == CLS_TOPO_TYPE) lo = which == FM_EMPTY ? 3 : 2;            // Polyhedral/Tetrahedral stay consistent with a tet; anything valid is consistent with no cells
+    if (cls == CLS_HANDLE) lo = d.chunk_limit[chunk];                   // (files use 1-byte handles) handle >= number of referenced entities
+    if (cls == CLS_HANDLE_OFFSET && ((off - (d.chunk_off[chunk] + 32)) & 7) == 0) lo = d.chunk_limit[chunk] - d.chunk_maxh[chunk];   // largest handle leaves the range
+    unsigned cand[N_SLOTS] = { orig ^ 0x01u, orig ^ 0x80u, 0x00u, 0xffu, lo };
+    unsigned nb = cand[slot];
+    bool dup = nb == orig || nb < lo || nb > 255;
+    for (unsigned j = 0; j < N_SLOTS; ++j) if (j < slot && cand[j] == nb) dup = true;
+    if (dup) { v_witness("C18 substitution slot without a new boundary value"); return; }
+    load_file(which);
+    g_buf[off] = (uint8_t)nb;
     ReadResult r = read_buf(d.len, NOFAULT, m, which == FM_TETP);
     if (g_mode == M_SUBST) v_assert(r != ReadResult::Ok, "C18 substitution: a file with an inconsistent must-reject field must not read as Ok");
     else v_assert(r != ReadResult::Ok, "C18 substitution (compression byte, 'must always be 0'): must not read as Ok");
